@@ -1,12 +1,14 @@
 /-
 C02 — Soil mineral nitrogen mass balance closes on every simulated day.
 Models: HermesModel/Nitro.lean (`nmove`, hermes/nitro.go:708-853), HermesModel/Mineral.lean
-(`mineral` bookkeeping nitro.go:569-688, `Denitr`/`Denitmo` removal denit.go).  Exact-arithmetic
+(`mineral` bookkeeping nitro.go:569-688, `Denitr`/`Denitmo` removal denit.go), HermesModel/Denitmo.lean
+(`Denitmo` on the whole array C1, denit.go:87-212).  Exact-arithmetic
 statements over ℚ for every number of layers ≥ 2, every flux pattern and every sub-step length;
 round-off is measured by the search stage of the check.
 -/
 import HermesProofs.Nitro
 import HermesProofs.Mineral
+import HermesProofs.Denitmo
 namespace Hermes.Nitro
 open Hermes.Mineral
 
@@ -164,6 +166,110 @@ theorem C02_denit_removes_exactly (c0 c1 c2 ft fm cum : ℚ) (h0 : 0 ≤ c0) (h1
 example : (denitr (10 : ℚ) 5 0 (1 / 2) 1 3).c.sum = 10 + 5 + 0 - ((denitr (10 : ℚ) 5 0 (1 / 2) 1 3).cumdenit - 3) :=
   (C02_denit_removes_exactly 10 5 0 (1 / 2) 1 3 (by norm_num) (by norm_num) (by norm_num) (by norm_num)
     (by norm_num) (by norm_num) (by norm_num)).1
+
+/-! ### `Denitmo` (peat soils, denit.go:87-212) -/
+
+/-- **`Denitmo` removes exactly what it books** when no clamp engages — for profiles of at least nine
+layers: for a profile of `9 + k` layers (every k) the mineral N of the profile drops by exactly the
+amount added to the denitrification counter, ΣC1' = ΣC1 − ΔCUMDENIT. "No clamp engages" = none of
+the nine values `C1[i] − Denit·share` that the code compares with 0 is negative (`denitmoPre`).
+Partial: the three 30 cm blocks are the array entries 0 … 8 whatever the number of layers; for a
+profile of fewer than nine layers the statement is false of the code
+(`C02_denitmo_removes_exactly_fails_at`). -/
+theorem C02_denitmo_removes_exactly_partial (c : List ℚ) (ft1 ft2 ft3 fm1 fm2 fm3 cum : ℚ) (k : ℕ)
+    (h : DenitmoIn c ft1 ft2 ft3 fm1 fm2 fm3) (hnc : ∀ p ∈ denitmoPre c ft1 ft2 ft3 fm1 fm2 fm3, 0 ≤ p) :
+    ((denitmo c ft1 ft2 ft3 fm1 fm2 fm3 cum).c.take (9 + k)).sum =
+      (c.take (9 + k)).sum - ((denitmo c ft1 ft2 ft3 fm1 fm2 fm3 cum).cumdenit - cum) := by
+  obtain ⟨_, hd, _, _, _, hex, _, _, _⟩ := denitmo_spec' h cum
+  have := take_sum_shift c _ hd k
+  have := hex hnc
+  linarith
+
+/-- **Violated for peat profiles of fewer than nine layers.** `Denitmo` reads and charges the array
+entries 0 … 8 regardless of `N`. Witness: a profile of 8 layers with 5 kg N/ha in layers 7 and 8 and
+10 kg N/ha in the array entry below the profile bottom (`C1[N]`, which the transport routine
+maintains): no clamp engages anywhere, the counter books the whole rate of the third block, the
+profile loses only three quarters of it — a quarter of the booked denitrification never left the
+profile (the day balance shows N appearing). -/
+theorem C02_denitmo_removes_exactly_fails_at :
+    ∃ c : List ℚ, DenitmoIn c 1 1 1 1 1 1 ∧ (∀ p ∈ denitmoPre c 1 1 1 1 1 1, 0 ≤ p) ∧
+      (c.take 8).sum - ((denitmo c 1 1 1 1 1 1 0).cumdenit - 0) < ((denitmo c 1 1 1 1 1 1 0).c.take 8).sum := by
+  refine ⟨[0, 0, 0, 0, 0, 0, 5, 5, 10], ⟨by simp, by simp, by norm_num, by norm_num, by norm_num, by norm_num,
+    by norm_num, by norm_num⟩, ?_, ?_⟩
+  · intro p hp
+    simp only [denitmoPre, denitmoBlockPre, List.getD_cons_zero, List.getD_cons_succ, List.mem_append, List.mem_cons,
+      List.mem_nil_iff, or_false] at hp
+    rcases hp with ((rfl | rfl | rfl) | (rfl | rfl | rfl)) | (rfl | rfl | rfl) <;> norm_num [denitRate]
+  · norm_num [denitmo, denitmoBlock, denitLayer, denitRate, clamp0]
+
+/-- **The clamp of `Denitmo` can only add N, never remove it** — every number of layers `n` (also
+fewer than nine): with any clamp engagement the profile ends with at least ΣC1 − ΔCUMDENIT; the
+counter never decreases and never books more than the nitrate of the nine block entries. -/
+theorem C02_denitmo_clamp_only_adds (c : List ℚ) (ft1 ft2 ft3 fm1 fm2 fm3 cum : ℚ) (n : ℕ)
+    (h : DenitmoIn c ft1 ft2 ft3 fm1 fm2 fm3) :
+    (c.take n).sum - ((denitmo c ft1 ft2 ft3 fm1 fm2 fm3 cum).cumdenit - cum)
+      ≤ ((denitmo c ft1 ft2 ft3 fm1 fm2 fm3 cum).c.take n).sum ∧
+    cum ≤ (denitmo c ft1 ft2 ft3 fm1 fm2 fm3 cum).cumdenit ∧
+    (denitmo c ft1 ft2 ft3 fm1 fm2 fm3 cum).cumdenit - cum ≤ (c.take 9).sum := by
+  obtain ⟨_, hd, hm, hle, hge, _, _, hshort, _⟩ := denitmo_spec' h cum
+  refine ⟨?_, hm, hle⟩
+  by_cases hn : n < 9
+  · exact hshort n hn
+  · obtain ⟨k, rfl⟩ : ∃ k, n = 9 + k := ⟨n - 9, by omega⟩
+    have := take_sum_shift c _ hd k
+    linarith
+
+/-- **Removal per layer never exceeds the nitrate present**: every block layer ends between 0 and its
+old content (when the clamp engages the removal is exactly the content), the layers below 90 cm are
+untouched and the array keeps its length. -/
+theorem C02_denitmo_removal_le_present (c : List ℚ) (ft1 ft2 ft3 fm1 fm2 fm3 cum : ℚ)
+    (h : DenitmoIn c ft1 ft2 ft3 fm1 fm2 fm3) :
+    (∀ i, i < 9 → 0 ≤ (denitmo c ft1 ft2 ft3 fm1 fm2 fm3 cum).c.getD i 0 ∧
+      (denitmo c ft1 ft2 ft3 fm1 fm2 fm3 cum).c.getD i 0 ≤ c.getD i 0) ∧
+    (denitmo c ft1 ft2 ft3 fm1 fm2 fm3 cum).c.drop 9 = c.drop 9 ∧
+    (denitmo c ft1 ft2 ft3 fm1 fm2 fm3 cum).c.length = c.length := by
+  obtain ⟨hl, hd, _, _, _, _, hb, _, _⟩ := denitmo_spec' h cum
+  exact ⟨hb, hd, hl⟩
+
+/-- **In the blocks 0-30 and 30-60 cm the clamp is dead code** (as in `Denitr`: 4.242·N ≤ N² + 74):
+the six upper layers lose exactly the two rates booked for them, whatever the state. Only the
+block 60-90 cm, whose shares of the second and third layer are exchanged, can clamp. -/
+theorem C02_denitmo_upper_blocks_exact (c : List ℚ) (ft1 ft2 ft3 fm1 fm2 fm3 cum : ℚ)
+    (h : DenitmoIn c ft1 ft2 ft3 fm1 fm2 fm3) :
+    ((denitmo c ft1 ft2 ft3 fm1 fm2 fm3 cum).c.take 6).sum = (c.take 6).sum -
+      ((denitmoBlock false (c.getD 0 0) (c.getD 1 0) (c.getD 2 0) ft1 fm1).2 +
+       (denitmoBlock false (c.getD 3 0) (c.getD 4 0) (c.getD 5 0) ft2 fm2).2) :=
+  (denitmo_spec' h cum).2.2.2.2.2.2.2.2
+
+/-- The exchanged shares of layers 8 and 9 (denit.go:120-121) do engage the clamp: nitrate 10 in
+layer 8, none in layer 9 — layer 9 is charged layer 8's share and clamped at 0, layer 8 is charged
+layer 9's share (nothing): the counter books a positive amount, the profile loses nothing. (With
+the shares in place the same state loses exactly what is booked.) -/
+theorem C02_denitmo_swapped_shares_engage_clamp :
+    ∃ c : List ℚ, DenitmoIn c 1 1 1 1 1 1 ∧
+      (denitmo c 1 1 1 1 1 1 0).c = c ∧ 0 < (denitmo c 1 1 1 1 1 1 0).cumdenit ∧
+      ¬ (∀ p ∈ denitmoPre c 1 1 1 1 1 1, 0 ≤ p) ∧
+      ((denitmoBlock false 0 10 0 1 1).1).sum = 10 - (denitmoBlock false 0 10 0 1 1).2 := by
+  refine ⟨[0, 0, 0, 0, 0, 0, 0, 10, 0, 5], ⟨by simp, by simp, by norm_num, by norm_num, by norm_num, by norm_num,
+    by norm_num, by norm_num⟩, ?_, ?_, ?_, ?_⟩
+  · norm_num [denitmo, denitmoBlock, denitLayer, denitRate, clamp0]
+  · norm_num [denitmo, denitmoBlock, denitRate]
+  · intro hp
+    have := hp (0 - denitRate 4242 (0 + 10 + 0) 1 1 * (10 / (0 + 10 + 0))) (by simp [denitmoPre, denitmoBlockPre])
+    norm_num [denitRate] at this
+  · norm_num [denitmoBlock, denitLayer, denitRate, clamp0]
+
+/-- a ten-layer peat profile -/
+def peatC1 : List ℚ := [12, 8, 5, 3, 2, 2, 1, 2, 3, 7]
+
+-- the hypotheses are satisfiable, with no clamp engaged
+example : DenitmoIn peatC1 (1 / 2) (3 / 4) 1 (1 / 2) (1 / 2) (1 / 3) ∧
+    ∀ p ∈ denitmoPre peatC1 (1 / 2) (3 / 4) 1 (1 / 2) (1 / 2) (1 / 3), 0 ≤ p := by
+  refine ⟨⟨by simp [peatC1], by simp [peatC1], by norm_num, by norm_num, by norm_num, by norm_num, by norm_num, by norm_num⟩, ?_⟩
+  intro p hp
+  simp only [peatC1, denitmoPre, denitmoBlockPre, List.getD_cons_zero, List.getD_cons_succ, List.mem_append, List.mem_cons,
+    List.mem_nil_iff, or_false] at hp
+  rcases hp with ((rfl | rfl | rfl) | (rfl | rfl | rfl)) | (rfl | rfl | rfl) <;> norm_num [denitRate]
 
 /-! ### non-vacuity of the nmove theorems: a well-formed three-layer state -/
 
